@@ -941,3 +941,527 @@ Proof.
   apply mod64_mod8 in Hb. clear - Hdr Hb Hs Hq1 Hm1.
   Local Transparent w8. unfold w8 in *. Local Opaque w8. lia.
 Qed.
+
+(* ------------------------------------------------------------------ *)
+(* shallow mode                                                        *)
+
+Fixpoint shallow_pairs (A B : list N) (pos : list nat) : list (nat * N) :=
+  match pos with
+  | [] => []
+  | p :: r =>
+    if Bool.eqb (N.odd (nth p A 0)) (N.odd (nth p B 0)) then shallow_pairs A B r
+    else (p, 1) :: shallow_pairs A B r
+  end.
+
+Lemma shallow_fold : forall sync A B L ps is_ ts,
+  length A = L -> length B = L -> N.of_nat L < w16 ->
+  (forall p, In p ps -> (ppos sync p < L)%nat) ->
+  fold_left (shallow_step sync (Some A) B) ps (Some (is_, ts))
+  = Some (is_ ++ idx_of (shallow_pairs A B (map (ppos sync) ps)),
+          ts ++ map snd (shallow_pairs A B (map (ppos sync) ps))).
+Proof.
+  intros sync A B L ps. induction ps as [|p r IH]; intros is_ ts HA HB HL Hb.
+  - cbn. now rewrite !app_nil_r.
+  - cbn [fold_left map shallow_pairs].
+    assert (Hp := Hb p (or_introl eq_refl)).
+    assert (Hr : forall p0, In p0 r -> (ppos sync p0 < L)%nat)
+      by (intros p0 H0; apply Hb; now right).
+    unfold shallow_step at 2. cbv zeta.
+    rewrite (pushed_eq sync p L Hp HL). rewrite Nat2N.id.
+    replace (length A <=? ppos sync p)%nat with false by (symmetry; apply Nat.leb_gt; lia).
+    rewrite (nth_error_nth' A 0) by lia. rewrite (nth_error_nth' B 0) by lia.
+    destruct (Bool.eqb (N.odd (nth (ppos sync p) A 0)) (N.odd (nth (ppos sync p) B 0))).
+    + now apply IH.
+    + rewrite IH by assumption. unfold idx_of. cbn [map fst snd].
+      now rewrite <- !app_assoc.
+Qed.
+
+Lemma shallow_pairs_fst : forall A B pos x, In x (shallow_pairs A B pos) -> In (fst x) pos.
+Proof.
+  intros A B. induction pos as [|p r IH]; intros x H; cbn [shallow_pairs] in H; [destruct H|].
+  destruct (Bool.eqb _ _).
+  - right. now apply IH.
+  - destruct H as [H|H]; [subst x; now left|right; now apply IH].
+Qed.
+
+Lemma shallow_pairs_fst' : forall A B pos j,
+  In j (map fst (shallow_pairs A B pos)) -> In j pos.
+Proof.
+  intros A B pos j H. apply in_map_iff in H. destruct H as [x [Hx Hin]]. subst j.
+  eapply shallow_pairs_fst; eauto.
+Qed.
+
+Lemma shallow_pairs_NoDup : forall A B pos, NoDup pos ->
+  NoDup (map fst (shallow_pairs A B pos)).
+Proof.
+  intros A B. induction pos as [|p r IH]; intros H; cbn [shallow_pairs]; [constructor|].
+  inversion H as [|a l Hna Hnd]; subst.
+  destruct (Bool.eqb _ _); [now apply IH|].
+  cbn [map fst]. constructor; [|now apply IH].
+  intros Hin. apply Hna. eapply shallow_pairs_fst'; eauto.
+Qed.
+
+Lemma shallow_pairs_in : forall A B pos p, In p pos ->
+  N.odd (nth p A 0) <> N.odd (nth p B 0) -> In (p, 1) (shallow_pairs A B pos).
+Proof.
+  intros A B. induction pos as [|a r IH]; intros p Hin Hne; [destruct Hin|].
+  cbn [shallow_pairs]. destruct Hin as [He|Hin].
+  - subst a. apply eqb_false_iff in Hne. rewrite Hne. now left.
+  - destruct (Bool.eqb _ _); [|right]; now apply IH.
+Qed.
+
+Lemma shallow_pairs_notin : forall A B pos p,
+  N.odd (nth p A 0) = N.odd (nth p B 0) ->
+  ~ In p (map fst (shallow_pairs A B pos)).
+Proof.
+  intros A B. induction pos as [|a r IH]; intros p He; cbn [shallow_pairs]; [intros []|].
+  destruct (Bool.eqb (N.odd (nth a A 0)) (N.odd (nth a B 0))) eqn:E; [now apply IH|].
+  cbn [map fst]. intros [H|H]; [|now apply (IH p He)].
+  subst a. apply eqb_false_iff in E. congruence.
+Qed.
+
+Lemma shallow_pairs_ext : forall A A' B B' pos,
+  (forall p, In p pos -> N.odd (nth p A 0) = N.odd (nth p A' 0)) ->
+  (forall p, In p pos -> N.odd (nth p B 0) = N.odd (nth p B' 0)) ->
+  shallow_pairs A B pos = shallow_pairs A' B' pos.
+Proof.
+  intros A A' B B'. induction pos as [|a r IH]; intros HA HB; [reflexivity|].
+  cbn [shallow_pairs]. rewrite (HA a (or_introl eq_refl)), (HB a (or_introl eq_refl)).
+  rewrite IH; [reflexivity| |]; intros p Hp; [apply HA|apply HB]; now right.
+Qed.
+
+Lemma w64_pow : w64 = 2 ^ 64.
+Proof. Local Transparent w64. reflexivity. Qed.
+Local Opaque w64.
+
+Lemma odd_add64_1 : forall x, N.odd (add64 x 1) = negb (N.odd x).
+Proof.
+  intros x. unfold add64. rewrite w64_pow.
+  rewrite <- N.bit0_odd. rewrite N.mod_pow2_bits_low by lia.
+  rewrite N.bit0_odd, N.odd_add. cbn [N.odd N.even negb]. apply xorb_true_r.
+Qed.
+
+Lemma shallow_bump_odd : forall A B T pos,
+  NoDup pos -> (forall p, In p pos -> (p < length T)%nat) ->
+  (forall p, In p pos -> N.odd (nth p T 0) = N.odd (nth p A 0)) ->
+  forall j, N.odd (nth j (bump T (shallow_pairs A B pos)) 0)
+            = if memb j pos then N.odd (nth j B 0) else N.odd (nth j T 0).
+Proof.
+  intros A B T pos Hnd Hb HT j.
+  destruct (memb j pos) eqn:Hm.
+  - apply memb_In in Hm.
+    destruct (bool_dec (N.odd (nth j A 0)) (N.odd (nth j B 0))) as [He|Hne].
+    + rewrite bump_nth_notin by (now apply shallow_pairs_notin).
+      rewrite (HT j Hm). exact He.
+    + rewrite (bump_nth_in _ T j 1 (shallow_pairs_NoDup A B pos Hnd)
+                 (shallow_pairs_in A B pos j Hm Hne) (Hb j Hm)).
+      rewrite odd_add64_1, (HT j Hm).
+      destruct (N.odd (nth j A 0)), (N.odd (nth j B 0)); cbn; congruence.
+  - apply memb_false in Hm. f_equal. apply bump_nth_notin. intros H. apply Hm.
+    eapply shallow_pairs_fst'; eauto.
+Qed.
+
+Lemma active01_length : forall l, length (active01 l) = length l.
+Proof. intros. unfold active01. apply map_length. Qed.
+
+Lemma active01_odd : forall l j, N.odd (nth j (active01 l) 0) = N.odd (nth j l 0).
+Proof.
+  intros l j. unfold active01.
+  pose proof (map_nth (fun v => if N.odd v then 1 else 0) l 0 j) as H.
+  cbn beta in H. change (if N.odd 0 then 1 else 0) with 0 in H. rewrite H.
+  now destruct (N.odd (nth j l 0)).
+Qed.
+
+Lemma nth_parities : forall l j, nth j (parities l) false = N.odd (nth j l 0).
+Proof. intros l j. unfold parities. exact (map_nth N.odd l 0 j). Qed.
+
+Lemma parities_length : forall l, length (parities l) = length l.
+Proof. intros. unfold parities. apply map_length. Qed.
+
+Lemma new_time_ok : forall len idxs, (forall i, In i idxs -> (i < len)%nat) ->
+  new_time len idxs
+  = Some (map (fun i => if existsb (Nat.eqb i) idxs then 1 else 0) (seq 0 len)).
+Proof.
+  intros len idxs H. unfold new_time.
+  replace (forallb (fun i => (i <? len)%nat) idxs) with true; [reflexivity|].
+  symmetry. apply forallb_forall. intros i Hi. apply Nat.ltb_lt. now apply H.
+Qed.
+
+Definition shallow_prs (c : cfg) (s1 s2 : snap) : list (nat * N) :=
+  shallow_pairs (mirror c s1) (srv_time c s2) (client_tracked c).
+
+Lemma mk_data_shallow : forall c s, shallow c = true ->
+  mk_data c s =
+  {| d_mtime := Some (active01 (srv_time c s));
+     d_sum := sum64 (active01 (srv_time c s));
+     d_q := s_q s; d_m := s_m s;
+     d_check := checksum (sum64 (active01 (srv_time c s))) (s_q s) (s_m s) |}.
+Proof. intros c s H. unfold mk_data, srv_time. rewrite H. reflexivity. Qed.
+
+Lemma client_apply_shallow : forall c prs dq dm ck t q m,
+  shallow c = true -> N.of_nat (length t) < w16 ->
+  (forall x, In x prs -> (fst x < length t)%nat) ->
+  (forall i, In i (client_tracked c) -> (i < length t)%nat) ->
+  exists acc,
+    client_apply c (mk_upd prs dq dm ck) t q m
+    = Some (bump t prs, add64 q dq, (m + dm) mod w32, acc).
+Proof.
+  intros c prs dq dm ck t q m Hsh Hl Hb Hc.
+  unfold client_apply, clock_from_update, mk_upd.
+  cbn [u_idx u_ticks u_q u_m u_check].
+  rewrite (N.mod_small _ _ Hl). rewrite (apply_ticks_bump prs t Hb). rewrite Hsh.
+  rewrite new_time_ok by (now rewrite bump_length).
+  eexists. reflexivity.
+Qed.
+
+Lemma gen_shallow_ok : forall c s1 s2 A,
+  length (s_time s1) = length (s_time s2) ->
+  cfg_wf c (length (s_time s1)) = true ->
+  length A = clen c (length (s_time s1)) ->
+  (forall p, In p (client_tracked c) ->
+     N.odd (nth p A 0) = N.odd (nth p (mirror c s1) 0)) ->
+  gen_shallow c (Some A) (active01 (srv_time c s2))
+  = Some (idx_of (shallow_prs c s1 s2), map snd (shallow_prs c s1 s2)).
+Proof.
+  intros c s1 s2 A Hlen Hwf HA Hext. unfold gen_shallow.
+  rewrite (shallow_fold (sync_schema c) A (active01 (srv_time c s2))
+             (clen c (length (s_time s1)))).
+  - rewrite ppos_combine. fold (client_tracked c).
+    rewrite (shallow_pairs_ext A (mirror c s1) _ (srv_time c s2)).
+    + reflexivity.
+    + exact Hext.
+    + intros p _. apply active01_odd.
+  - exact HA.
+  - rewrite active01_length. apply (srv_time_length c _ s2 (eq_sym Hlen)).
+  - apply (wf_clen16 c _ Hwf).
+  - intros p Hp. apply (wf_fold_pairs c _ Hwf p Hp).
+Qed.
+
+Theorem roundtrip_shallow_values_lemma :
+  forall (c : cfg) (s1 s2 : snap) (hello : bool) (t : list N),
+    shallow c = true ->
+    length (s_time s1) = length (s_time s2) ->
+    cfg_wf c (length (s_time s1)) = true ->
+    Forall (fun x => x < w64) (s_time s1) -> Forall (fun x => x < w64) (s_time s2) ->
+    s_q s1 <= s_q s2 -> s_q s2 - s_q s1 < w16 -> s_q s2 < w64 ->
+    s_m s1 <= s_m s2 -> s_m s2 - s_m s1 < w8 -> s_m s2 < w32 ->
+    (hello = true -> s_m s1 = 0) ->
+    length t = length (mirror c s1) -> parities t = parities (mirror c s1) ->
+    Forall (fun x => x < w64) t ->
+    let last := if hello then hello_data c s1 else mk_data c s1 in
+    exists u, calc_update c true (mk_data c s2) last = Some u /\
+      values_shallow_ok c s2 (client_apply c u t (s_q s1) (s_m s1)) = true.
+Proof.
+  intros c s1 s2 hello t Hsh Hlen Hwf _ _ Hq1 Hq2 Hq3 Hm1 Hm2 Hm3 Hhello Ht Hpar _ last.
+  set (n := length (s_time s1)) in *.
+  assert (Htl : length t = clen c n) by (now rewrite Ht, (mirror_length c n s1 eq_refl)).
+  assert (Hbound : forall x, In x (shallow_prs c s1 s2) -> (fst x < length t)%nat).
+  { intros x Hx. rewrite Htl. apply (wf_pos_lt c n Hwf).
+    eapply shallow_pairs_fst. exact Hx. }
+  assert (Hposb : forall i, In i (client_tracked c) -> (i < length t)%nat).
+  { intros i Hi. rewrite Htl. now apply (wf_pos_lt c n Hwf). }
+  assert (Hpj : forall j, N.odd (nth j t 0) = N.odd (nth j (mirror c s1) 0)).
+  { intros j. rewrite <- !nth_parities. now rewrite Hpar. }
+  exists (mk_upd (shallow_prs c s1 s2) (s_q s2 - s_q s1) (s_m s2 - s_m s1)
+            (checksum (sum64 (active01 (srv_time c s2))) (s_q s2) (s_m s2))).
+  split.
+  - unfold calc_update. rewrite (mk_data_shallow c s2 Hsh).
+    cbn [d_mtime d_q d_m d_check].
+    assert (HA : exists A, d_mtime last = Some A /\
+               length A = clen c n /\
+               (forall p, In p (client_tracked c) ->
+                  N.odd (nth p A 0) = N.odd (nth p (mirror c s1) 0)) /\
+               d_q last = s_q s1 /\ d_m last = s_m s1).
+    { unfold last. destruct hello.
+      - exists (mirror c s1). cbn [hello_data d_mtime d_q d_m].
+        repeat split; try reflexivity.
+        + apply (mirror_length c n s1 eq_refl).
+        + symmetry. now apply Hhello.
+      - exists (active01 (srv_time c s1)). rewrite (mk_data_shallow c s1 Hsh).
+        cbn [d_mtime d_q d_m]. repeat split; try reflexivity.
+        + rewrite active01_length. apply (srv_time_length c n s1 eq_refl).
+        + intros p Hp. rewrite active01_odd.
+          rewrite (mirror_nth c n Hwf s1 eq_refl p Hp).
+          now rewrite (srv_time_nth c n s1 eq_refl p Hp). }
+    destruct HA as [A [HA1 [HA2 [HA3 [HA4 HA5]]]]].
+    rewrite HA1, HA4, HA5.
+    rewrite (gen_shallow_ok c s1 s2 A Hlen Hwf HA2 HA3).
+    rewrite (q_delta _ _ Hq1 Hq2 Hq3). rewrite (m_delta _ _ Hm1 Hm2 Hm3).
+    reflexivity.
+  - destruct (client_apply_shallow c (shallow_prs c s1 s2) (s_q s2 - s_q s1)
+                (s_m s2 - s_m s1)
+                (checksum (sum64 (active01 (srv_time c s2))) (s_q s2) (s_m s2))
+                t (s_q s1) (s_m s1) Hsh) as [acc Hacc].
+    + rewrite Htl. apply (wf_clen16 c n Hwf).
+    + exact Hbound.
+    + exact Hposb.
+    + rewrite Hacc. unfold values_shallow_ok.
+      rewrite (add64_delta _ _ Hq1 Hq3), (add32_delta _ _ Hm1 Hm3), !N.eqb_refl.
+      replace (parities (bump t (shallow_prs c s1 s2))) with (parities (mirror c s2)).
+      * now rewrite list_bool_eqb_refl.
+      * apply (nth_ext _ _ false false).
+        -- rewrite !parities_length, bump_length, Htl.
+           apply (mirror_length c n s2 (eq_sym Hlen)).
+        -- intros j Hj.
+           rewrite parities_length, (mirror_length c n s2 (eq_sym Hlen)) in Hj.
+           rewrite !nth_parities. unfold shallow_prs.
+           rewrite (shallow_bump_odd (mirror c s1) (srv_time c s2) t (client_tracked c)
+                      (wf_pos_NoDup c n Hwf) Hposb (fun p _ => Hpj p)).
+           destruct (memb j (client_tracked c)) eqn:Hm.
+           ++ apply memb_In in Hm.
+              rewrite (mirror_nth c n Hwf s2 (eq_sym Hlen) j Hm).
+              now rewrite (srv_time_nth c n s2 (eq_sym Hlen) j Hm).
+           ++ rewrite Hpj.
+              rewrite (mirror_nth_out c n s1 eq_refl j Hj Hm).
+              now rewrite (mirror_nth_out c n s2 (eq_sym Hlen) j Hj Hm).
+Qed.
+
+(* ------------------------------------------------------------------ *)
+(* (5) chains of mutations (calcUpdateMutations), deep mode            *)
+
+Fixpoint apply_chain (c : cfg) (us : list upd) (t : list N) (q m : N)
+  : option (list N * N * N) :=
+  match us with
+  | [] => Some (t, q, m)
+  | u :: r =>
+    match client_apply c u t q m with
+    | Some (t', q', m', true) => apply_chain c r t' q' m'
+    | _ => None                      (* panic, or rejected by the checksum *)
+    end
+  end.
+
+(* every consecutive pair of snapshots satisfies the hypotheses of (1) *)
+Fixpoint chain_ok (s0 : snap) (ss : list snap) : Prop :=
+  match ss with
+  | [] => True
+  | s1 :: r =>
+    length (s_time s0) = length (s_time s1) /\ snaps_in_range s0 s1 = true /\
+    chain_ok s1 r
+  end.
+
+Lemma last_cons : forall (A : Type) (r : list A) (a d : A), last (a :: r) d = last r a.
+Proof.
+  induction r as [|b r IH]; intros a d; [reflexivity|].
+  change (last (a :: b :: r) d) with (last (b :: r) d). now rewrite !IH.
+Qed.
+
+Theorem mutation_chain_lemma :
+  forall (c : cfg) (ss : list snap) (s0 : snap),
+    shallow c = false ->
+    cfg_wf c (length (s_time s0)) = true ->
+    chain_ok s0 ss ->
+    exists us,
+      calc_update_muts c (map (mk_data c) ss) (mk_data c s0) = Some us /\
+      length us = length ss /\
+      apply_chain c us (mirror c s0) (s_q s0) (s_m s0)
+      = Some (mirror c (last ss s0), s_q (last ss s0), s_m (last ss s0)).
+Proof.
+  intros c. induction ss as [|s1 r IH]; intros s0 Hsh Hwf Hch.
+  - exists []. repeat split.
+  - destruct Hch as [Hlen [Hrng Hch]].
+    destruct (roundtrip_deep_eq c s0 s1 false Hsh Hlen Hwf Hrng)
+      as [u [Hu Ha]]; [discriminate|].
+    change (last_data c false s0) with (mk_data c s0) in Hu.
+    assert (Hwf1 : cfg_wf c (length (s_time s1)) = true) by (now rewrite <- Hlen).
+    destruct (IH s1 Hsh Hwf1 Hch) as [us [Hus [Hl Hap]]].
+    exists (u :: us). cbn [map calc_update_muts apply_chain length].
+    rewrite Hu, Hus, Ha, last_cons. repeat split; [now f_equal|exact Hap].
+Qed.
+
+(* ------------------------------------------------------------------ *)
+(* (4) refutations: defects of the modelled code, by concrete witness  *)
+
+Ltac conc := vm_compute; first [reflexivity | discriminate | (intros; discriminate)].
+Ltac splits := repeat match goal with |- _ /\ _ => split end.
+(* no vm_compute on a [Forall (fun x => x < w64) _] goal: normalising the
+   comparison against an open variable blows up *)
+Ltac conc1 :=
+  match goal with
+  | |- Forall _ _ => repeat (constructor; [conc|]); constructor
+  | _ => conc
+  end.
+
+(* uint16 truncation of the queue-tick delta: a delta of exactly 2^16 is
+   decoded as 0, and the mod-256 checksum cannot see it *)
+Definition qb_c : cfg := {| sync_schema := true; shallow := false; tracked := [0%nat; 2%nat] |}.
+Definition qb_s1 : snap := {| s_time := [1; 4; 2]; s_q := 7; s_m := 3 |}.
+Definition qb_s2 : snap := {| s_time := [3; 9; 2]; s_q := 7 + 65536; s_m := 4 |}.
+
+Theorem roundtrip_queue_boundary_refuted_lemma :
+  exists (c : cfg) (s1 s2 : snap),
+    shallow c = false /\
+    length (s_time s1) = length (s_time s2) /\
+    cfg_wf c (length (s_time s1)) = true /\
+    deltas_ok w32 (s_time s1) (s_time s2) = true /\
+    s_q s1 <= s_q s2 /\ s_q s2 - s_q s1 = 65536 /\ s_q s2 < w64 /\
+    s_m s1 <= s_m s2 /\ s_m s2 - s_m s1 < w8 /\ s_m s2 < w32 /\
+    exists u t' q' m',
+      calc_update c false (mk_data c s2) (mk_data c s1) = Some u /\
+      client_apply c u (mirror c s1) (s_q s1) (s_m s1) = Some (t', q', m', true) /\
+      q' <> s_q s2 /\
+      roundtrip_deep_ok c s2 (client_apply c u (mirror c s1) (s_q s1) (s_m s1)) = false.
+Proof.
+  exists qb_c, qb_s1, qb_s2.
+  splits; try conc.
+  do 4 eexists. splits; conc.
+Qed.
+
+(* uint32 truncation of a per-state tick delta: a delta of exactly 2^32 is
+   pushed as tick 0, and the mod-256 checksum cannot see it *)
+Definition tb_s2 : snap := {| s_time := [1 + 4294967296; 9; 2]; s_q := 9; s_m := 4 |}.
+
+Theorem roundtrip_tick_boundary_refuted_lemma :
+  exists (c : cfg) (s1 s2 : snap),
+    shallow c = false /\
+    length (s_time s1) = length (s_time s2) /\
+    cfg_wf c (length (s_time s1)) = true /\
+    deltas_ok (w32 + 1) (s_time s1) (s_time s2) = true /\   (* every delta <= 2^32 *)
+    nth 0 (s_time s2) 0 - nth 0 (s_time s1) 0 = 4294967296 /\
+    s_q s1 <= s_q s2 /\ s_q s2 - s_q s1 < w16 /\ s_q s2 < w64 /\
+    s_m s1 <= s_m s2 /\ s_m s2 - s_m s1 < w8 /\ s_m s2 < w32 /\
+    exists u t' q' m',
+      calc_update c false (mk_data c s2) (mk_data c s1) = Some u /\
+      client_apply c u (mirror c s1) (s_q s1) (s_m s1) = Some (t', q', m', true) /\
+      nth 0 t' 0 <> nth 0 (mirror c s2) 0 /\
+      roundtrip_deep_ok c s2 (client_apply c u (mirror c s1) (s_q s1) (s_m s1)) = false.
+Proof.
+  exists qb_c, qb_s1, tb_s2.
+  splits; try conc.
+  do 4 eexists. splits; conc.
+Qed.
+
+(* shallow clocks: the server checksums the activity bits of its mTime, the
+   client checksums NewTime(tracked indexes); a faithful mirror is rejected *)
+Definition sh_c : cfg := {| sync_schema := true; shallow := true; tracked := [0%nat; 2%nat] |}.
+Definition sh_s2 : snap := {| s_time := [2; 5; 2]; s_q := 9; s_m := 4 |}.
+
+Theorem shallow_accept_refuted_lemma :
+  exists (c : cfg) (s1 s2 : snap),
+    shallow c = true /\
+    length (s_time s1) = length (s_time s2) /\
+    cfg_wf c (length (s_time s1)) = true /\
+    snaps_in_range s1 s2 = true /\
+    exists u t' q' m',
+      calc_update c true (mk_data c s2) (mk_data c s1) = Some u /\
+      client_apply c u (mirror c s1) (s_q s1) (s_m s1) = Some (t', q', m', false) /\
+      values_shallow_ok c s2 (client_apply c u (mirror c s1) (s_q s1) (s_m s1)) = true.
+Proof.
+  exists sh_c, qb_s1, sh_s2.
+  splits; try conc.
+  do 4 eexists. splits; conc.
+Qed.
+
+(* the same without schema sync and without any change between snapshots *)
+Definition sh_c' : cfg := {| sync_schema := false; shallow := true; tracked := [0%nat; 2%nat] |}.
+
+Theorem shallow_accept_refuted_nosync_lemma :
+  exists (c : cfg) (s1 : snap),
+    shallow c = true /\ sync_schema c = false /\
+    cfg_wf c (length (s_time s1)) = true /\
+    snaps_in_range s1 s1 = true /\
+    exists u t' q' m',
+      calc_update c true (mk_data c s1) (mk_data c s1) = Some u /\
+      client_apply c u (mirror c s1) (s_q s1) (s_m s1) = Some (t', q', m', false) /\
+      values_shallow_ok c s1 (client_apply c u (mirror c s1) (s_q s1) (s_m s1)) = true.
+Proof.
+  exists sh_c', qb_s1.
+  splits; try conc.
+  do 4 eexists. splits; conc.
+Qed.
+
+(* RemoteHello memorises machTick 0: when the machine tick is not 0 at Hello
+   time the first update carries the whole tick as its delta *)
+Definition hm_s1 : snap := {| s_time := [1; 4; 2]; s_q := 7; s_m := 1 |}.
+Definition hm_s2 : snap := {| s_time := [3; 9; 2]; s_q := 9; s_m := 1 |}.
+
+Theorem hello_machtick_refuted_lemma :
+  exists (c : cfg) (s1 s2 : snap),
+    shallow c = false /\
+    length (s_time s1) = length (s_time s2) /\
+    cfg_wf c (length (s_time s1)) = true /\
+    snaps_in_range s1 s2 = true /\
+    s_m s1 = 1 /\ s_m s2 = 1 /\
+    exists u t' q' m',
+      calc_update c false (mk_data c s2) (hello_data c s1) = Some u /\
+      client_apply c u (mirror c s1) (s_q s1) (s_m s1) = Some (t', q', m', false) /\
+      m' <> s_m s2 /\
+      roundtrip_deep_ok c s2 (client_apply c u (mirror c s1) (s_q s1) (s_m s1)) = false.
+Proof.
+  exists qb_c, hm_s1, hm_s2.
+  splits; try conc.
+  do 4 eexists. splits; conc.
+Qed.
+
+(* ------------------------------------------------------------------ *)
+(* non-vacuity of the implication theorems                             *)
+
+Definition nv_s2 : snap := {| s_time := [3; 9; 2]; s_q := 9; s_m := 4 |}.
+Definition nv_s0 : snap := {| s_time := [1; 4; 2]; s_q := 7; s_m := 0 |}.
+
+Example roundtrip_deep_nonvacuous :
+  exists (c : cfg) (s1 s2 : snap) (hello : bool),
+    shallow c = false /\
+    length (s_time s1) = length (s_time s2) /\
+    cfg_wf c (length (s_time s1)) = true /\
+    snaps_in_range s1 s2 = true /\
+    (hello = true -> s_m s1 = 0) /\
+    mirror c s1 <> mirror c s2.
+Proof.
+  exists qb_c, qb_s1, nv_s2, false. splits; conc.
+Qed.
+
+Example roundtrip_deep_nonvacuous_hello :
+  exists (c : cfg) (s1 s2 : snap),
+    shallow c = false /\
+    length (s_time s1) = length (s_time s2) /\
+    cfg_wf c (length (s_time s1)) = true /\
+    snaps_in_range s1 s2 = true /\
+    (true = true -> s_m s1 = 0) /\
+    mirror c s1 <> mirror c s2.
+Proof.
+  exists {| sync_schema := false; shallow := false; tracked := [2%nat; 0%nat] |}, nv_s0, nv_s2.
+  splits; conc.
+Qed.
+
+Example checksum_detects_nonvacuous :
+  exists (c : cfg) (s1 s2 : snap) (hello : bool) (t : list N) (q m : N),
+    shallow c = false /\
+    length (s_time s1) = length (s_time s2) /\
+    cfg_wf c (length (s_time s1)) = true /\
+    snaps_in_range s1 s2 = true /\
+    (hello = true -> s_m s1 = 0) /\
+    length t = length (mirror c s1) /\
+    Forall (fun x => x < w64) t /\ q < w64 /\ m < w32 /\
+    drifted c s1 t q m = true.
+Proof.
+  exists qb_c, qb_s1, nv_s2, false, [2; 0; 2], 7, 3.
+  splits; conc1.
+Qed.
+
+Example roundtrip_shallow_values_nonvacuous :
+  exists (c : cfg) (s1 s2 : snap) (hello : bool) (t : list N),
+    shallow c = true /\
+    length (s_time s1) = length (s_time s2) /\
+    cfg_wf c (length (s_time s1)) = true /\
+    Forall (fun x => x < w64) (s_time s1) /\ Forall (fun x => x < w64) (s_time s2) /\
+    s_q s1 <= s_q s2 /\ s_q s2 - s_q s1 < w16 /\ s_q s2 < w64 /\
+    s_m s1 <= s_m s2 /\ s_m s2 - s_m s1 < w8 /\ s_m s2 < w32 /\
+    (hello = true -> s_m s1 = 0) /\
+    length t = length (mirror c s1) /\ parities t = parities (mirror c s1) /\
+    Forall (fun x => x < w64) t /\
+    t <> mirror c s1 /\ parities (mirror c s1) <> parities (mirror c s2).
+Proof.
+  exists sh_c, qb_s1, sh_s2, false, [11; 0; 6].
+  splits; conc1.
+Qed.
+
+Example mutation_chain_nonvacuous :
+  exists (c : cfg) (s0 : snap) (ss : list snap),
+    shallow c = false /\
+    cfg_wf c (length (s_time s0)) = true /\
+    chain_ok s0 ss /\ (2 <= length ss)%nat.
+Proof.
+  exists qb_c, nv_s0, [qb_s1; nv_s2].
+  split; [conc|]. split; [conc|]. split; [|cbn; lia].
+  cbn [chain_ok]. splits; first [conc | exact I].
+Qed.
